@@ -3,6 +3,9 @@
 package corerad
 
 import (
+	"fmt"
+	"sync/atomic"
+	"sync"
 	"math"
 	"math/big"
 	"net/netip"
@@ -288,7 +291,61 @@ func c17CaseW(t *testing.T, out *vfh.Out, c vfobs.Case, warm bool) {
 	out.Line(ct.String(), it.String())
 }
 
+// c17ConcurrentGathers: several Prometheus servers scraping at the same moment — the collector
+// only takes a read lock, so scrapes really overlap. Every one of them must be complete.
+//
+//	cgs goroutines gathers | bad        (bad = gathers that failed or lack samples)
+func c17ConcurrentGathers(t *testing.T, out *vfh.Out) {
+	doc := "[[interfaces]]\nname = \"eth0\"\nadvertise = true\n[[interfaces.prefix]]\nprefix = \"2001:db8:0:1::/64\"\n[[interfaces.rdnss]]\nservers = [\"2001:db8::53\"]\n" +
+		"[[interfaces]]\nname = \"eth1\"\nadvertise = true\n[[interfaces.prefix]]\nprefix = \"2001:db8:0:2::/64\"\n[[interfaces.route]]\nprefix = \"2001:db8:f::/48\"\n" +
+		"[[interfaces]]\nname = \"eth2\"\nmonitor = true\n"
+	cfg, err := config.Parse(strings.NewReader(doc), time.Now())
+	if err != nil {
+		t.Fatalf("concurrent gathers: %v", err)
+	}
+	st := &vfobs.State{Auto: map[string]vfobs.Read{}, Fwd: map[string]vfobs.Read{}}
+	for _, ifi := range cfg.Interfaces {
+		st.Auto[ifi.Name], st.Fwd[ifi.Name] = vfobs.ReadFalse, vfobs.ReadTrue
+	}
+	reg := prometheus.NewPedanticRegistry()
+	_ = NewMetrics(metricslite.NewPrometheus(reg), "v", time.Time{}, st, cfg.Interfaces)
+	count := func() (int, error) {
+		mfs, err := reg.Gather()
+		if err != nil {
+			return 0, err
+		}
+		n := 0
+		for _, mf := range mfs {
+			if strings.HasPrefix(mf.GetName(), "corerad_") {
+				n += len(mf.GetMetric())
+			}
+		}
+		return n, nil
+	}
+	want, err := count()
+	if err != nil || want == 0 {
+		t.Fatalf("concurrent gathers: solo gather: %d samples, %v", want, err)
+	}
+	const goroutines, gathers = 8, 150
+	var bad int64
+	var wg sync.WaitGroup
+	for g := 0; g < goroutines; g++ {
+		wg.Add(1)
+		go func() {
+			defer wg.Done()
+			for k := 0; k < gathers; k++ {
+				if n, err := count(); err != nil || n != want {
+					atomic.AddInt64(&bad, 1)
+				}
+			}
+		}()
+	}
+	wg.Wait()
+	out.Line(fmt.Sprintf("cgs %d %d", goroutines, gathers), fmt.Sprint(atomic.LoadInt64(&bad)))
+}
+
 func verifC17(t *testing.T, r *vfh.Rand, out *vfh.Out) {
+	c17ConcurrentGathers(t, out)
 	docs := vfobs.Docs(r, vfh.N(3, 40))
 	nt := 0
 	for _, d := range docs {
